@@ -136,12 +136,17 @@ Definition exec_ops (legacy : bool) (call : callfn) (ops : list op) (st : state)
 Definition script_of (scripts : list (list op)) (cb : Z) : list op :=
   if cb <? 0 then [] else nth (Z.to_nat cb) scripts [].
 
+(* the test callbacks also stop running their scripts once the log holds more than MAXLOG events
+   (bounds self-rescheduling chains; same cut in the harness) *)
+Definition MAXLOG : Z := 1500.
+
 Fixpoint call_cb (legacy : bool) (scripts : list (list op)) (fuel : nat) : callfn :=
   fun u cb kw rn st =>
     let st1 := emit (ECall (now st) u cb kw rn) st in
     match fuel with
     | O => emit EOof st1
-    | S f => exec_ops legacy (call_cb legacy scripts f) (script_of scripts cb) st1
+    | S f => if MAXLOG <? Z.of_nat (length (log st1)) then emit EOof st1
+             else exec_ops legacy (call_cb legacy scripts f) (script_of scripts cb) st1
     end.
 
 Definition MAXD : nat := 6%nat.
